@@ -139,7 +139,9 @@ PROPS = {
     },
     'C12': {
         'level': 'proof',
-        'verus': [_cg('c12_parse', True), _cg('exec_route'), _cg('exec_strings'), _cg('exec_lists'), _cg('exec_sets'), _cg('srv_strings'), _cg('cmd_strings'), _cg('cmd_lists'), _cg('cmd_sets'), _cg('cmd_hashes')],
+        'verus': [_cg('c12_parse', True), _cg('exec_route'), _cg('exec_strings'), _cg('exec_lists'), _cg('exec_sets'), _cg('srv_strings'), _cg('cmd_strings'), _cg('cmd_lists'), _cg('cmd_sets'), _cg('cmd_hashes'),
+                  # the engine functions both paths call (the EngineModel contracts the arms and handlers assume are what these units prove)
+                  {'group': 'shard_core'}, _sg('shard_strings'), _sg('shard_lists'), _sg('shard_sets'), _sg('shard_hashes')],
         'tables': [{'name': 'script_parse_table', 'kind': 'script_parse'}],
         'explanation': 'parity clause only: the script path (CommandParser::parse_<cmd>, then the execute_string / execute_list arm) and the direct handler of the same command are proved against the SAME reference functions of (dataset, db, arg, num_arg, set_opts): the parser refuses exactly the argument shapes the direct handler refuses and yields the very argument values the direct handler uses; the arm has the effect and the reply of the reference function',
     },
